@@ -325,6 +325,24 @@ def subscript_order(ctx):
                            "" if ok else "an index_or_insert on the write path takes its key from %s, not from the collected subscripts: the subscripts are not applied as one innermost-first chain" % (sorted(srcs) or "a value outside the sequence"),
                            body.loc(t["line"]), how="key popped from the sequence")
     rep.floor("C06.R9", n, 1, "subscript sequences in WriteVal::visit_array_subscript")
+    # the key is the evaluated subscript itself: between evaluating `.subscript` and indexing, the value passes through no operation
+    # of Val (decay, cast, ...) that would turn a key of one kind (an array: an error) into a key of another (its length)
+    m = 0
+    hosts = list(F.with_closures(top))
+    for body in hosts:
+        for bi, t in body.calls():
+            nm = t["callee"].get("name")
+            if nm not in ("index_or_insert", "index", "push", "push_back") or len(t["args"]) < 2:
+                continue
+            if nm in ("push", "push_back") and "exec::val::Val" not in body.local_ty(op_place(t["args"][1])["l"]).s if op_place(t["args"][1]) else True:
+                continue
+            m += 1
+            bad = _val_ops_on(F, body, t["args"][1])
+            ok = not bad
+            rep.ob("C06.R9", "key-untransformed::%s::%s#%d" % (body.path.rsplit("::", 2)[-1] if body.kind != "closure" else "closure", nm, m), ok,
+                   "" if ok else "the subscript of a write target passes through %s before it is used as the key: an array (or another kind) used as a subscript is no longer the key that is looked up" % sorted(bad),
+                   body.loc(t["line"]), how="no Val operation between visit_primary_expression(.subscript) and the key")
+    rep.floor("C06.R9", m, 2, "uses of a subscript value as key on the write path")
 
 
 def _refs_local(body, operand, l, depth=0):
@@ -359,6 +377,35 @@ def _flows_to_call_named(body, src_bb, names, depth=0, seen=None):
                 if _flows_to_call_named(body, bi, names, depth + 1, seen):
                     return True
     return False
+
+
+def _val_ops_on(F, body, operand, depth=0, seen=None):
+    """names of the Val / Array operations (other than clone) whose result the operand derives from, following private helpers and
+    looking through aggregates (Ok(..), Some(..), tuples)"""
+    out = set()
+    seen = seen if seen is not None else set()
+    for d, p in origins(body, operand):
+        if d[0] == "call" and (body.path, d[1]) not in seen:
+            seen.add((body.path, d[1]))
+            t = body.term(d[1])
+            df = callee_def(t) or ""
+            nm = t["callee"].get("name") or "?"
+            if (df.startswith("exec::val::Val::") or df.startswith("exec::val::Array::")) and nm not in ("clone",):
+                out.add(nm)
+                continue
+            if nm in ("visit_primary_expression", "visit_expression"):
+                continue          # the evaluation itself: what lies before it is the expression, not the key
+            h = F.fn(df)
+            if h is not None and h.mir and h.file == body.file and t["callee"].get("trait") is None and depth < 3:
+                out |= _val_ops_on(F, h, {"copy": {"l": 0, "p": []}}, depth + 1, seen)
+                continue
+            for a in t["args"]:
+                out |= _val_ops_on(F, body, a, depth, seen)
+        elif d[0] == "agg" and (body.path, "agg", d[1], d[2]) not in seen:
+            seen.add((body.path, "agg", d[1], d[2]))
+            for o in body.stmts(d[1])[d[2]]["rv"].get("ops", []):
+                out |= _val_ops_on(F, body, o, depth, seen)
+    return out
 
 
 def _deep_call_names(body, operand):
